@@ -6,6 +6,7 @@ the shapes of the macro `parse_field!`, of `WordInfos::get_word_info`, of the `W
 `LexiconSet::get_word_info_subset` and of `StatefulTokenizer::{set_mode,set_subset}` the model was written for."""
 import re
 import facts as F
+import shapealpha as SA
 
 
 def q(s):
@@ -218,14 +219,32 @@ def shapes():
     data_fields = re.findall(r"pub\s+(\w+)\s*:\s*([A-Za-z0-9_<>]+)", m.group(1))
     rel = "sudachi/src/dic/lexicon_set.rs"
     t = F.strip_comments(F.src(rel))
-    b = norm_ws(F.fn_body(t, "get_word_info_subset", rel))
-    exp = ("letdict_id=id.dic();letmutword_info:WordInfoData=self.lexicons[dict_idasusize].get_word_info(id.word(),subset)?.into();"
-           "ifsubset.contains(InfoSubset::POS_ID){letpos_id=word_info.pos_idasusize;ifdict_id>0&&pos_id>=self.num_system_pos{"
-           "word_info.pos_id=(pos_idasusize-self.num_system_pos+self.pos_offsets[dict_idasusize])asu16;}}"
-           "ifsubset.contains(InfoSubset::SPLIT_A){Self::update_dict_id(&mutword_info.a_unit_split,dict_id)?;}"
-           "ifsubset.contains(InfoSubset::SPLIT_B){Self::update_dict_id(&mutword_info.b_unit_split,dict_id)?;}"
-           "ifsubset.contains(InfoSubset::WORD_STRUCTURE){Self::update_dict_id(&mutword_info.word_structure,dict_id)?;}Ok(word_info.into())")
-    if not F.same_shape(F.fn_body(t, "get_word_info_subset", rel), exp):
+    # get_word_info_subset: the word info of lexicon `dict_id`, then -- each under its OWN flag of the subset -- the POS id of a
+    # user dictionary re-based (dict_id > 0 && pos_id >= num_system_pos => pos_id - num_system_pos + pos_offsets[dict_id]) and
+    # the references of split A / split B / word structure re-stamped.  The re-basing may stand in the body or in a private
+    # helper method of the file that is handed (word_info.pos_id, dict_id) (its body is read as if it stood in place).
+    body = F.fn_body(t, "get_word_info_subset", rel)
+    b = norm_ws(body)
+    pre = "let dict_id = id.dic(); let mut word_info: WordInfoData = self.lexicons[dict_id as usize].get_word_info(id.word(), subset)?.into(); if subset.contains(InfoSubset::POS_ID) { "
+    post = (" } if subset.contains(InfoSubset::SPLIT_A) { Self::update_dict_id(&mut word_info.a_unit_split, dict_id)?; }"
+            " if subset.contains(InfoSubset::SPLIT_B) { Self::update_dict_id(&mut word_info.b_unit_split, dict_id)?; }"
+            " if subset.contains(InfoSubset::WORD_STRUCTURE) { Self::update_dict_id(&mut word_info.word_structure, dict_id)?; } Ok(word_info.into())")
+    inline = ["let pos_id = word_info.pos_id as usize; if dict_id > 0 && pos_id >= self.num_system_pos { word_info.pos_id = (pos_id%s - self.num_system_pos + self.pos_offsets[dict_id as usize]) as u16; }" % c
+              for c in (" as usize", "")]
+    ok = SA.alpha_any(body, [pre + x + post for x in inline]) >= 0
+    if not ok:
+        m = re.search(r"word_info\.pos_id=self\.(\w+)\(word_info\.pos_id,dict_id\);", b)
+        if m and SA.alpha_eq(body, pre + "word_info.pos_id = self.%s(word_info.pos_id, dict_id);" % m.group(1) + post):
+            sig = re.search(r"\bfn\s+%s\s*\(\s*&self\s*,\s*(\w+)\s*:\s*u16\s*,\s*(\w+)\s*:\s*u8\s*,?\s*\)\s*->\s*u16\b" % re.escape(m.group(1)), t)
+            if sig:
+                hb = SA.substitute(F.fn_body(t, m.group(1), rel), {sig.group(1): "RAW_POS", sig.group(2): "DICT_ID"})
+                rebased = ["(pos_id%s - self.num_system_pos + self.pos_offsets[DICT_ID as usize]) as u16" % c for c in (" as usize", "")]
+                helper = []
+                for r_ in rebased:
+                    helper.append("let pos_id = RAW_POS as usize; if DICT_ID > 0 && pos_id >= self.num_system_pos { %s } else { RAW_POS }" % r_)
+                    helper.append("let pos_id = RAW_POS as usize; if DICT_ID > 0 && pos_id >= self.num_system_pos { return %s; } RAW_POS" % r_)
+                ok = SA.alpha_any(hb, helper) >= 0
+    if not ok:
         raise F.FactError("LexiconSet::get_word_info_subset changed shape: %r" % b)
     b = norm_ws(F.fn_body(t, "update_dict_id", rel))
     if not F.same_shape(F.fn_body(t, "update_dict_id", rel), "foridinsplit.iter_mut(){letcur_dict_id=id.dic();ifcur_dict_id>0{*id=WordId::checked(dict_id,id.word())?;}}Ok(())"):
@@ -246,7 +265,14 @@ def shapes():
     rel = "sudachi/src/analysis/mlist.rs"
     t = F.strip_comments(F.src(rel))
     b = norm_ws(F.fn_body(t, "collect_results", rel))
-    if "analyzer.swap_result(&mutmref.input,&mutself.nodes.mut_data(),&mutmref.subset,);" not in b:
+    # collect_results: the list's own InputPart (self.input, mutably borrowed; a failed borrow is MorphemeListBorrowed) hands its
+    # input and its subset, and the list its nodes, to the tokenizer's swap_result.  match / map_err(..)? spellings alike.
+    swap = " let mref = i.deref_mut(); analyzer.swap_result(&mut mref.input, &mut self.nodes.mut_data(), &mut mref.subset); Ok(())"
+    if SA.alpha_any(F.fn_body(t, "collect_results", rel), [
+            "match self.input.try_borrow_mut() { Ok(mut i) => {" + swap + " } Err(_) => Err(SudachiError::MorphemeListBorrowed), }",
+            "let mut i = self.input.try_borrow_mut().map_err(|_| SudachiError::MorphemeListBorrowed)?;" + swap,
+            "let mut i = match self.input.try_borrow_mut() { Ok(i) => i, Err(_) => return Err(SudachiError::MorphemeListBorrowed), };" + swap,
+            "if let Ok(mut i) = self.input.try_borrow_mut() {" + swap + " } else { Err(SudachiError::MorphemeListBorrowed) }"]) < 0:
         raise F.FactError("MorphemeList::collect_results no longer hands (input, nodes, subset) to swap_result: %r" % b)
     return fallbacks, data_fields
 
